@@ -236,8 +236,8 @@ async fn main() {
             Err(e) => json!({"update": "ok", "reload": err_tag(&e)}),
         };
         out.case_nt(&class, input.clone(), imp, true);
-        // ---- the same update (versions and expirations only) through `tuftool update` (quick: every third repository)
-        if !(thorough || i % 3 == 0) { out.skip(); continue; }
+        // ---- the same update (versions and expirations only) through `tuftool update` (every third repository)
+        if i % 3 != 0 { out.skip(); continue; }
         let cli_out = work.path().join("cli");
         let exp_s = new_exp.format("%Y-%m-%dT%H:%M:%SZ").to_string();
         let mut cmd = std::process::Command::new(tuftool());
